@@ -410,6 +410,24 @@ func runC17(e *Env) {
 		}
 	}
 	r.Floor("E3.fullhash(hash function)", nHash, 1)
+	// the command: a failure of hashing, of the producer or of the extraction ends the run with an error ("or fails with an
+	// error - never a profile with fewer syscalls")
+	nMain := 0
+	for _, f := range p.SrcFuncs(load.PkgProfiler) {
+		for _, c := range flow.Calls(f) {
+			call, ok := c.(*ssa.Call)
+			if !ok || flow.ErrResult(call) == nil || f.Name() != "main" {
+				continue
+			}
+			cal := flow.Callee(call)
+			isHash := cal != nil && len(cal.Blocks) > 0 && len(callsTo(cal, "crypto/sha256", "New"))+len(callsTo(cal, "crypto/sha256", "Sum256")) > 0
+			if cal == fn || isHash || flow.CalleeIs(call, load.PkgDisasm, "ExtractSyscalls") {
+				nMain++
+				failEdgeNoReturn(e, p, "E3.maindisc", "main/"+calleeName(call), call)
+			}
+		}
+	}
+	r.Floor("E3.maindisc(fallible steps of the command)", nMain, 3)
 	// the hash function is deliberately not subject to E3.errbranch here: see the note above.
 	checkErrBranch(e, p, []*ssa.Function{fn, flow.Callee(rcall)}, "profiler cache")
 }
